@@ -936,7 +936,10 @@ class World:
             cl = it['closures'][n]
             # Verus rejects `_` as a closure parameter: give it a name (never used)
             ptxt = src[cl['or1'][1]:cl['or2'][0]].decode()
-            if ptxt.strip() == '_':
+            if n in c.closure_params:
+                # type ascription on the closure parameters (needed when the expected type is generic)
+                edits.append((cl['or1'][1], cl['or2'][0], c.closure_params[n].encode()))
+            elif ptxt.strip() == '_':
                 edits.append((cl['or1'][1], cl['or2'][0], b'_vf_unused'))
             s = cl['or2'][1]
             e = cl['body'][0]
